@@ -59,6 +59,9 @@ type Dialogue struct {
 	// Then: a second dialogue opened (on a fresh driver object) in the same process right after this
 	// one; both are judged.
 	Then *Dialogue `json:"then,omitempty"`
+	// Lo: the case is a login through the real telnet transport over loopback TCP (all other fields
+	// unused).
+	Lo *LoDesc `json:"telnet_loopback,omitempty"`
 	// CloseErr: the transport's Close does close it but returns an error.
 	CloseErr bool `json:"close_err,omitempty"`
 	// Loss: the connection is lost during the login exchange: "eof" | "err" | "err-timedout" (reads
@@ -771,6 +774,9 @@ func GenDialogue(r *rand.Rand, o GenOpts) (Dialogue, GenStats) {
 			addDecoys(r, p, &d, &st)
 		}
 	}
+	if d.Auth == "ssh" && r.Intn(2) == 0 {
+		mergeFailureLines(&d)
+	}
 	if !o.NoStall && r.Intn(5) == 0 {
 		a := Analyse(&d)
 		cuts := a.AllowedCuts()
@@ -850,6 +856,30 @@ func addNotices(r *rand.Rand, p *Patterns, d *Dialogue, st *GenStats) {
 	}
 	d.Seg.Mode = []string{"fixed", "geom", "mix"}[r.Intn(3)]
 	d.Seg.Size = []int{2, 3, 7, 16}[r.Intn(4)]
+}
+
+// mergeFailureLines makes every ssh failure line that is directly followed by a password prompt, a
+// passphrase prompt or the shell prompt arrive in the same read as that prompt (one uncut span). The
+// plan's meaning is unchanged: a recognised failure line comes first, the outcome is a connection
+// error.
+func mergeFailureLines(d *Dialogue) {
+	var out []Step
+	for i := 0; i < len(d.Steps); i++ {
+		s := d.Steps[i]
+		if s.Kind == KSSHErr && s.Then == "" && i+1 < len(d.Steps) {
+			n := d.Steps[i+1]
+			switch {
+			case (n.Kind == KPassword || n.Kind == KPassphrase) && !n.Uncut:
+				s.Then, s.ThenText = n.Kind, n.Text
+				i++
+			case n.Kind == KShell && d.Prompt != "":
+				s.Then, s.ThenText = KShell, d.Prompt
+				i++
+			}
+		}
+		out = append(out, s)
+	}
+	d.Steps = out
 }
 
 // addDecoys puts, in front of a real credential prompt and in the same read (uncut), a line that the
@@ -1005,6 +1035,28 @@ func Sweep(r *rand.Rand) []Dialogue {
 			}
 			addDecoys(r, sessionPatterns(&d), &d, &st)
 			d.FirstOp = []string{"getprompt", "sendcommand", "readall"}[k%3]
+			Finish(&d)
+			out = append(out, d)
+		}
+	}
+	// every ssh failure line in the same read as the prompt that follows it
+	for i := range sshErrFamily(&Dialogue{}) {
+		for _, then := range []string{KPassword, KPassphrase, KShell} {
+			d := base("ssh", []string{"generic", "network"}[n%2])
+			n++
+			e := Step{Kind: KSSHErr, Text: sshErrFamily(&d)[i], Then: then}
+			switch then {
+			case KPassword:
+				e.ThenText = d.User + "@" + d.Host + "'s password: "
+			case KPassphrase:
+				e.ThenText = "Enter passphrase for key '/home/" + d.User + "/.ssh/id_rsa': "
+			default:
+				e.ThenText = d.Prompt
+			}
+			d.Steps = []Step{e, {Kind: KShell}}
+			if i%2 == 1 {
+				d.Steps = []Step{{Kind: KPassword, Text: "Password: "}, e, {Kind: KShell}}
+			}
 			Finish(&d)
 			out = append(out, d)
 		}
@@ -1229,6 +1281,9 @@ func Analyse(d *Dialogue) *Analysis {
 		switch a.PlanClass {
 		case OutConn:
 			a.Need = off + sshFailureAt(s.Text)
+			if s.Then != "" {
+				a.Need = a.StepEnd[a.Decisive] // delivered uncut together with the prompt that follows
+			}
 		case OutAuth:
 			a.Need = off + firstMatch(s, d)
 		case OutOK:
